@@ -150,7 +150,7 @@ var nastyIdents = []string{
 }
 var intLits = []string{"0", "1", "7", "42", "007", "0x1F", "0XaB", "100000000000", "18446744073709551615",
 	"0x7fffffffffffffff", "0x8000000000000000", "0XFFFFFFFFFFFFFFFF", "9223372036854775808", "0x0000000000000000ff", "0xdeadbeefcafe"}
-var floatLits = []string{"1.5", ".5", "1.", "1e3", "1E-2", "0.0", "00.25", "2.e1", "1e0", "7E+00", "2.5e-0", "0e0", ".5e00", "1e000", "1E5", "1e+05", "3e-007"}
+var floatLits = []string{"1.5", ".5", "1.", "1e3", "1E-2", "0.0", "00.25", "2.e1", "1e0", "7E+00", "2.5e-0", "0e0", ".5e00", "1e000", "1E5", "1e+05", "3e-007", "1e309", "1.5E+309", "1e-400", "123.456e999", "0.1234567890123456789", "9007199254740993.0", "123456789012345678901234567890.5", "1.0000000000000000001", "2.50"}
 
 func isFloatLit(t string) bool { return strings.ContainsAny(t, ".eE") && !strings.HasPrefix(strings.ToLower(t), "0x") }
 
